@@ -89,6 +89,17 @@ fn string_wire_schema(g: &mut G) -> (String, Value, Vec<String>) {
         }
         6 => {
             // untagged union of string-typed alternatives (mutually exclusive)
+            // alternatives that end up as the same Rust type (formats without a native type are
+            // plain Strings; serde tries the variants in declaration order, so must every conversion)
+            if g.chance(1, 3) {
+                let probes = vec!["ops@example.com", "http://example.com/a", "123e4567-e89b-12d3-a456-426614174000", "", "zz", "192.168.0.1"];
+                let alts = match g.below(3) {
+                    0 => json!([{"type": "string", "format": "uri"}, {"type": "string", "format": "email"}, {"type": "string", "format": "uuid"}]),
+                    1 => json!([{"type": "string", "format": "uuid"}, {"type": "string", "format": "hostname"}, {"type": "string", "format": "email"}]),
+                    _ => json!([{"type": "string", "format": "ipv4"}, {"type": "string", "format": "uri"}, {"type": "string", "format": "uri-reference"}]),
+                };
+                return ("untagged-strings-same-type".into(), json!({"oneOf": alts}), probes.into_iter().map(|s| s.to_string()).collect());
+            }
             let (a, b, probes): (Value, Value, Vec<&str>) = match g.below(3) {
                 0 => (json!({"type": "string", "format": "ipv4"}), json!({"type": "string", "format": "ipv6"}), vec!["10.0.0.1", "::1", "zz", ""]),
                 1 => (json!({"type": "string", "format": "uuid"}), json!({"type": "string", "pattern": "^[0-9]{3}$"}), vec!["123e4567-e89b-12d3-a456-426614174000", "123", "1234", "abc"]),
@@ -168,7 +179,7 @@ impl Property for C11 {
                 None => return false,
             };
             if let Some(bs) = o.get("oneOf").and_then(|b| b.as_array()) {
-                return o.len() == 1 && bs.len() == 2 && bs.iter().all(|b| b.get("type") == Some(&json!("string")) && (b.get("format").is_some() || b.get("pattern").and_then(|p| p.as_str()).and_then(gs::find_pattern).is_some()));
+                return o.len() == 1 && (bs.len() == 2 || bs.len() == 3) && bs.iter().all(|b| b.get("type") == Some(&json!("string")) && (b.get("format").is_some() || b.get("pattern").and_then(|p| p.as_str()).and_then(gs::find_pattern).is_some()));
             }
             if o.get("type") != Some(&json!("string")) {
                 return false;
